@@ -336,7 +336,7 @@ func c14Scenario(h *H, root string, si int) {
 	a12RemoveLocks(be)
 	chk := NewCLI(be).Run("check")
 	h.Rec("state", "check", B(chk.Err == nil), HexS(firstLine(chk.Stderr)))
-	h.Rec("labels", fmt.Sprintf("writers:%d", nw), fmt.Sprintf("readers:%d", minInt(len(rruns), 9)))
+	h.Rec("labels", fmt.Sprintf("writers:%d", nw), fmt.Sprintf("readers:%d", c11MinInt(len(rruns), 9)))
 	h.End()
 }
 
